@@ -13,9 +13,13 @@ def getu(fn, cmp, args, call):
              '(gk < g_cmp_n) ==> (g_wit_key == VIEW(TL(table), 2 * gk) && g_wit_res != 0)',
              '(g_cmp_n > 0) ==> (g_last_key == VIEW(TL(table), 2 * (g_cmp_n - 1)))'],
         dec='n - i')}
+    # which comparison a getter uses is part of its meaning (htp_table_get_c must skip NUL bytes of stored keys: that is how a header name with an embedded NUL is still found):
+    # the right comparator is replaced by the call-logging stub, every other bstr comparison by a stub that requires false
+    others = [c for c in ('bstr_cmp_nocase', 'bstr_cmp_c_nocasenorzero', 'bstr_cmp_mem_nocase', 'bstr_cmp_c_nocase', 'bstr_cmp', 'bstr_cmp_c', 'bstr_cmp_mem') if c != cmp]
+    keep = ' '.join('(void) &%s;' % c for c in [cmp] + others)
     UNITS.append(U(name=fn, props=['C17', 'C01'], kind='contract', src=['htp_table.c', 'htp_list.c'], enforce=fn,
-                   replace=[cmp], contracts_inc=['c17_table.h'], loops={'htp_table.c': {fn: body}},
-                   harness='void HARNESS(void) { %s; %s; CANARY(); }' % (args, call), defs=D, min_obl=50, assumes=A,
+                   replace=[cmp] + ['%s/contract_wrongcmp_%s' % (c, c) for c in others], contracts_inc=['c17_table.h'], loops={'htp_table.c': {fn: body}},
+                   harness='void HARNESS(void) { %s %s; %s; CANARY(); }' % (keep, args, call), defs=D, min_obl=50, assumes=A + ['the getter\'s own comparator is %s; a call of any other bstr comparison fails a requires(false) stub' % cmp],
                    sub='lookup returns the element paired with the FIRST key for which the comparator returns 0, NULL if none (law over the comparator call log); real htp_list_array_get/size bodies included'))
 
 
